@@ -3,7 +3,10 @@
 Decides: every mutation of a table's row vector is followed, on every path to a successful
 return, by the maintenance call that keeps (i) the table's constraint hash indexes and (ii) the
 user-defined index registry in step, and (iii) no error return separates a row mutation from its
-user-index maintenance.  Does NOT decide that the maintenance computes the right keys."""
+user-index maintenance.  Does NOT decide that the maintenance computes the right keys.
+(R7) functions that look a table up by name fall back to the schema-qualified key; (R8) every access of a
+table's primary-key / unique hash index is keyed in the index's own column order; (R9) which hash index an
+UPDATE affects is decided existentially over the index's columns."""
 from ..engine.callgraph import CallGraph
 from ..engine.paths import (Follow, ok_exit_reachable, err_exits_reachable, search, succ_of_call,
                             success_starts, err_origin, none_edges)
